@@ -63,7 +63,7 @@ func (d *numberDecoder) DecodePath(ctx *RuntimeContext, cursor, depth int64) ([]
 		return nil, 0, err
 	}
 	if bytes == nil {
-		return [][]byte{nullbytes}, c, nil
+		return [][]byte{[]byte("null")}, c, nil
 	}
 	return [][]byte{bytes}, c, nil
 }
